@@ -375,7 +375,9 @@ def reroute_strategy():
                      st.lists(st.sampled_from(['plain', 'provides']), max_size=2), st.sampled_from(['/go', '/go/deep/er']),
                      # application-level WSGI wrappers around the rerouting application: handing on a copy of the environ with an
                      # entry of their own, decorating start_response, calling the inner application lazily, or passing through
-                     st.lists(st.sampled_from(['copy', 'header', 'lazy', 'pass']), max_size=3, unique=True))
+                     st.lists(st.sampled_from(['copy', 'header', 'lazy', 'pass']), max_size=3, unique=True),
+                     # the rerouting route as a branch route of a path-rewriting application, requested by a non-canonical path
+                     st.sampled_from([None, None, 'rewrite-noslash', 'rewrite-double']))
 
 
 def reroute_body(case, ctx):
@@ -383,7 +385,8 @@ def reroute_body(case, ctx):
     from clastic.application import RerouteWSGI
     tspec, how, method, query, mwkinds, path = case[:6]
     wrappers = list(case[6]) if len(case) > 6 else []
-    rc = [tspec, how, method, query, list(mwkinds), path, wrappers]
+    slash = case[7] if len(case) > 7 else None
+    rc = [tspec, how, method, query, list(mwkinds), path, wrappers, slash]
     ctx.current = rc
     got = {}
 
@@ -416,17 +419,22 @@ def reroute_body(case, ctx):
 
     def rn_raise(context):
         raise rr
-    pattern = '/go' if path == '/go' else '/go/<rest*>'
+    simple = path == '/go'
+    pattern = '/go' if simple else '/go/<rest*>'
+    if slash:
+        pattern += '/'
+        if slash == 'rewrite-double':
+            path = path.replace('/go', '/go/', 1) if path != '/go' else '//go'
     if how == 'endpoint':
         route = Route(pattern, rr, middlewares=mws)
     elif how == 'raise-endpoint':
-        ep = ep_raise if pattern == '/go' else (lambda rest: ep_raise())
+        ep = ep_raise if simple else (lambda rest: ep_raise())
         route = Route(pattern, ep, middlewares=mws)
     elif how == 'raise-render':
-        ep = (lambda: {'c': 1}) if pattern == '/go' else (lambda rest: {'c': 1})
+        ep = (lambda: {'c': 1}) if simple else (lambda rest: {'c': 1})
         route = Route(pattern, ep, rn_raise, middlewares=mws)
     else:
-        ep = (lambda: Response('never')) if pattern == '/go' else (lambda rest: Response('never'))
+        ep = (lambda: Response('never')) if simple else (lambda rest: Response('never'))
         route = Route(pattern, ep, middlewares=mws + [Raiser()])
     def make_wrapper(kind):
         def wsgi_wrapper(self, inner):
@@ -449,7 +457,7 @@ def reroute_body(case, ctx):
                     return inner(environ, start_response)
             return wrapped
         return type('ZqWrap_' + kind, (Middleware,), {'wsgi_wrapper': wsgi_wrapper})()
-    app = Application([route], middlewares=[make_wrapper(k) for k in wrappers])
+    app = Application([route], middlewares=[make_wrapper(k) for k in wrappers], **({'slash_mode': 'rewrite'} if slash else {}))
     body = b'payload-bytes' if method in ('POST', 'PUT') else b''
     env = make_environ(path, method, query, headers={'X-Custom': 'zq', 'Cookie': 'k=v'}, body=body, extra={'zq.custom': object()})
     before = dict(env)
